@@ -1552,6 +1552,7 @@ func (pid *PID) Shutdown(ctx context.Context) error {
 		}
 	}
 
+	verifhook.At("stop.lock", &pid.schedState, 0, 0)
 	pid.stopLocker.Lock()
 	pid.logger.Debugf("shutdown started for actor=%s", pid.Name())
 
